@@ -28,6 +28,7 @@ package memfs
 import (
 	"io/fs"
 	"os"
+	"strings"
 	"time"
 
 	"github.com/avfs/avfs"
@@ -812,6 +813,11 @@ func (vfs *MemFS) Rename(oldpath, newpath string) error {
 			}
 
 			return &os.LinkError{Op: op, Old: oldpath, New: newpath, Err: nErr}
+		}
+
+		// A directory can't be moved below itself, and the root directory can't be moved at all.
+		if oChild == node(oParent) || strings.HasPrefix(nPI.Path(), oPI.Path()+string(vfs.PathSeparator())) {
+			return &os.LinkError{Op: op, Old: oldpath, New: newpath, Err: vfs.err.InvalidArgument}
 		}
 
 	default:
